@@ -103,6 +103,7 @@ Prog == <<
   BadText("begin Z = 1; exception when others then Z = ; end;", {}),
   BadText("if true then for J in 1 to 2 loop print J; end loop; print ); end if;", {})
 >>
+FuncNames == {"F()", "G()"}
 ProgText(p) == IF Prog[p].bad THEN Prog[p].text ELSE Render(Prog[p].ast)
 
 \* expressions: e (rendered with a terminating newline) or literal text; sty: static type the API reports
@@ -193,9 +194,6 @@ Pre(m, a) ==
                                             /\ TypeOf(m.lib[a.h].v).m # "any"
     [] a.a = "parse_exec" -> Live(m, a.c) /\ a.h \in DOMAIN m.exe /\ m.exe[a.h].st = "free" /\ a.p \in DOMAIN Prog
                              /\ Prog[a.p].needs \cap (m.ctx[a.c].maybe \ m.ctx[a.c].decl) = {}
-                             \* (a text that declares a function completely and is rejected further on is the subject of C11,
-                             \*  known finding D23: the model does not follow it)
-                             /\ (ParseOk(m.ctx[a.c], a.p) \/ ~\E j \in DOMAIN Prog[a.p].ast : Prog[a.p].ast[j].k = "func")
     [] a.a = "run"       -> a.h \in DOMAIN m.exe /\ ExeUsable(m, a.h) /\ a.c = m.exe[a.h].c
     \* bloc_execute2: the clone runs an executable of its original - one compiled before the clone was taken, or one
     \* compiled later that only uses names (variables, functions) the clone already had, while the clone itself has
@@ -259,7 +257,8 @@ Post(m, a) ==
                          \* a function declaration takes effect when its text is compiled (and again whenever it runs)
                          !.ctx[a.c].S = DeclFuncs(Prog[a.p].ast, @)]
          \* names a rejected text mentions may stay declared (never assigned): whether they do is not pinned
-         ELSE [m1 EXCEPT !.ctx[a.c].maybe = @ \cup Prog[a.p].decl]
+         \* (variables only: the functions a rejected text declares are restored)
+         ELSE [m1 EXCEPT !.ctx[a.c].maybe = @ \cup (Prog[a.p].decl \ FuncNames)]
     [] a.a \in {"run", "run2"} ->
          LET m1 == Invalidate(m, a.c) IN
          [m1 EXCEPT !.ctx[a.c] = RunOn(m.ctx[a.c], m.exe[a.h].p).cx]
